@@ -124,7 +124,7 @@ PROPS = {
         "race": False,
         "level": "exploration",
         "budget_s": {"quick": 25, "thorough": 1200},
-        "max_cases": {"quick": 72000, "thorough": 0},
+        "max_cases": {"quick": 78000, "thorough": 0},
         "min_fields": ["sched", "tape"],
         "zero_fields": ["sched", "tape"],
         "rule": ("seeded workloads, one per (seed, index): a mesh / record list / PLY header+rows / OFF or ASCII-STL text is drawn from the "
